@@ -83,6 +83,15 @@ def f_longline(rng, W, ctx):
     return frag('longline', _sent(ws) + '\n', ws)
 
 
+def f_twolines(rng, W, ctx):
+    """Plain words on two lines; 'phrases' names a span from a word of the
+    first line to a word of the second one (copied verbatim in between)."""
+    a, b = W.words(3), W.words(2)
+    s = '%s %s %s\n%s %s.\n' % (a[0], a[1], a[2], b[0], b[1])
+    return frag('twolines', s, a + b,
+                phrases=[[a[rng.randrange(3)], b[rng.randrange(2)]]])
+
+
 def f_indent(rng, W, ctx):
     a, b = W.words(2), W.words(2)
     s = '   ' + _sent(a) + '\n\t' + _sent(b) + '\n'
@@ -381,6 +390,7 @@ def f_selectlanguage(rng, W, ctx):
 
 GENERATORS = {
     'plain': f_plain, 'longline': f_longline, 'indent': f_indent,
+    'twolines': f_twolines,
     'blank': f_blank, 'textbf': f_textbf, 'nested': f_nested,
     'unknown_macro': f_unknown_macro, 'group': f_group,
     'newcommand': f_newcommand, 'newcommand_opt': f_newcommand_opt,
